@@ -183,3 +183,8 @@ MUTANTS = [
     dict(name="names sorted after renaming", file="create/_create.py", old="    new_names = np.array(\n        chroms.rename(rename_dict).index.values, dtype=CHROM_DTYPE\n    )", new="    new_names = np.array(\n        sorted(chroms.rename(rename_dict).index.values), dtype=CHROM_DTYPE\n    )", checks=["rename"]),
     dict(name="chrom ids rewritten shifted", file="create/_create.py", old='        chrom_ids = bins["chrom"].cat.codes\n', new='        chrom_ids = (bins["chrom"].cat.codes + 1) % n_chroms\n', checks=["rename"]),
 ]
+
+MUTANTS += [
+    dict(name="rename map pruned in place", file="create/_create.py", old="    chroms = get(grp[\"chroms\"]).set_index(\"name\")\n    n_chroms = len(chroms)\n    new_names = np.array(",
+         new="    chroms = get(grp[\"chroms\"]).set_index(\"name\")\n    n_chroms = len(chroms)\n    for _k in [k for k in rename_dict if k not in chroms.index]:\n        del rename_dict[_k]\n    new_names = np.array(", checks=["map_reuse"]),
+]
